@@ -8,7 +8,7 @@ sub-message chosen by the time-out value, ITDMA = sync:2 increment:13 slots:3 ke
 from __future__ import annotations
 from ..domains import IntSet
 from ..spec import itu
-from .common import flatten, unwrap_message, strip_wrappers
+from .common import flatten, unwrap_message, strip_wrappers, inline_flag
 
 B = itu.COMM_STATE_OFFSET
 
@@ -100,7 +100,16 @@ def run(ctx, chk):
             elif scheme_got == "itdma":
                 pre = "#Itdma.0."
                 for f, (off, w) in itu.ITDMA.items():
-                    got = core_of(rs.get(pre + f, ("missing",)))
+                    raw = rs.get(pre + f, ("missing",))
+                    got = core_of(raw)
+                    fl = inline_flag(raw) if f == "keep" else None
+                    if fl is not None:
+                        # the keep flag computed in place (`bits == 1`, nom's bits::complete::bool)
+                        if fl[0] != ("bits", BB + off, w):
+                            mism.append("%s=%s(want bits %d+%d)" % (f, fl[0][1:], BB + off, w))
+                        elif fl[1] != {0: False, 1: True}:
+                            mism.append("%s=inverted" % f)
+                        continue
                     if got != ("bits", BB + off, w):
                         mism.append("%s=%s(want bits %d+%d)" % (f, got[1:] if got[0] == "bits" else got, BB + off, w))
             else:
